@@ -135,10 +135,199 @@ theorem decodeQuestions_chainC (s : State) (hw : WInv s) :
     rw [specField16_some (by rw [hsz]; omega), specField16_some (by rw [hsz]; omega), e1, e2]
     simp only [hl]
 
-theorem decodeRrs_chainC (s : State) (hw : WInv s) :
+/-! ### the expanded RDATA of the types with compressible names -/
+
+/-- the decoded name `w` is the name given: equal up to ASCII case, octet for octet if `ex` -/
+def NameSim (ex : Prop) (n : WName) (w : List UInt8) : Prop :=
+  n.WF ∧ w.map lowerU8 = n.wire.map lowerU8 ∧ (ex → w = n.wire)
+
+/-- the RDATA given is well formed for its type, as far as the decoder's expansion looks: the
+    RFC 1035 types with compressible names consist of exactly the names (and fixed octets) of
+    their layout — one name (NS, MD, MF, CNAME, MB, MG, MR, PTR), two names and 20 octets (SOA),
+    two names (MINFO), two octets and a name (MX) -/
+def RdShape (ty : Nat) (rd : List UInt8) : Prop :=
+  if ty = 2 ∨ ty = 3 ∨ ty = 4 ∨ ty = 5 ∨ ty = 7 ∨ ty = 8 ∨ ty = 9 ∨ ty = 12 then ∃ n, WName.parse rd = some (n, [])
+  else if ty = 6 then ∃ a r1 b tl, WName.parse rd = some (a, r1) ∧ WName.parse r1 = some (b, tl) ∧ tl.length = 20
+  else if ty = 14 then ∃ a r1 b, WName.parse rd = some (a, r1) ∧ WName.parse r1 = some (b, [])
+  else if ty = 15 then 2 ≤ rd.length ∧ ∃ a, WName.parse (rd.drop 2) = some (a, [])
+  else True
+
+/-- **the expanded RDATA `d` is the RDATA given `g` with every compressible name written out**: the
+    names equal to those given up to ASCII case (octet for octet if `ex`), all other octets as
+    given -/
+def RdExpands (ex : Prop) (ty : Nat) (g d : List UInt8) : Prop :=
+  if ty = 2 ∨ ty = 3 ∨ ty = 4 ∨ ty = 5 ∨ ty = 7 ∨ ty = 8 ∨ ty = 9 ∨ ty = 12 then
+    ∃ n w, g = n.wire ∧ d = w ∧ NameSim ex n w
+  else if ty = 6 then
+    ∃ a b tl wa wb, g = a.wire ++ b.wire ++ tl ∧ d = wa ++ wb ++ tl ∧ NameSim ex a wa ∧ NameSim ex b wb ∧
+      tl.length = 20
+  else if ty = 14 then ∃ a b wa wb, g = a.wire ++ b.wire ∧ d = wa ++ wb ∧ NameSim ex a wa ∧ NameSim ex b wb
+  else if ty = 15 then ∃ pre a wa, pre.length = 2 ∧ g = pre ++ a.wire ∧ d = pre ++ wa ∧ NameSim ex a wa
+  else d = g
+
+theorem nameSim_lower {ex : Prop} {n : WName} {w : List UInt8} (h : NameSim ex n w) :
+    w.map lowerU8 = n.wire.map lowerU8 := h.2.1
+
+/-- up to ASCII case the expanded RDATA is the RDATA given; octet for octet if `ex` -/
+theorem rdExpands_lower {ex : Prop} {ty : Nat} {g d : List UInt8} (h : RdExpands ex ty g d) :
+    d.map lowerU8 = g.map lowerU8 ∧ (ex → d = g) := by
+  unfold RdExpands at h
+  split at h
+  · obtain ⟨n, w, rfl, rfl, hs⟩ := h
+    exact ⟨hs.2.1, hs.2.2⟩
+  · split at h
+    · obtain ⟨a, b, tl, wa, wb, rfl, rfl, ha, hb, _⟩ := h
+      exact ⟨by simp only [List.map_append, ha.2.1, hb.2.1], fun hx => by rw [ha.2.2 hx, hb.2.2 hx]⟩
+    · split at h
+      · obtain ⟨a, b, wa, wb, rfl, rfl, ha, hb⟩ := h
+        exact ⟨by simp only [List.map_append, ha.2.1, hb.2.1], fun hx => by rw [ha.2.2 hx, hb.2.2 hx]⟩
+      · split at h
+        · obtain ⟨pre, a, wa, _, rfl, rfl, ha⟩ := h
+          exact ⟨by simp only [List.map_append, ha.2.1], fun hx => by rw [ha.2.2 hx]⟩
+        · exact ⟨by rw [h], fun _ => h⟩
+
+theorem rdName_item {s : State} {a k e : Nat} {m : CMode} {n : WName} (hw : WInv s) (hit : Item s a k)
+    (hnm : NameIs s a m n) (hn : n.WF) (he : a + k ≤ e) :
+    ∃ w, rdName (s.octets.extract 0 s.cursor) a e = some (w, k) ∧ NameSim (m ≠ .standard) n w := by
+  obtain ⟨w, hd, hc, hx⟩ := item_decodes_name hw hit hnm
+  refine ⟨w, ?_, hn, hc, hx⟩
+  unfold rdName
+  rw [hd]
+  simp only [if_pos he]
+
+/-- **the MsgDecode decoder's RDATA expansion on what the writer wrote**: where the parts of an
+    RDATA lie (`RdAt`) and the RDATA given is well formed for its type, `expandRdata` succeeds and
+    returns the RDATA given with its compressible names written out -/
+theorem expandRdata_rdAt (s : State) (hw : WInv s) (m : CMode) (cls ty : Nat) (ts : List CompType)
+    (rd : List UInt8) (p len : Nat) (ps : List Nat) (hct : componentTypes cls ty = some ts)
+    (h : RdAt s m ts rd p (p + len) ps) (hstop : p + len ≤ s.cursor) (hsh : RdShape ty rd) :
+    ∃ rd', expandRdata (s.octets.extract 0 s.cursor) ty p len = some rd' ∧
+      RdExpands (m ≠ .standard) ty rd rd' := by
+  have hcs : s.cursor ≤ s.octets.size := Nat.le_trans hw.cur_av hw.av_size
+  rw [componentTypes_layout] at hct
+  simp only [Option.some.injEq] at hct
+  subst hct
+  unfold RdShape at hsh
+  unfold RdExpands expandRdata Message.layoutOf at *
+  by_cases h1 : ty = 2 ∨ ty = 3 ∨ ty = 4 ∨ ty = 5 ∨ ty = 7 ∨ ty = 8 ∨ ty = 9 ∨ ty = 12
+  · simp only [h1, if_true, List.map_cons, List.map_nil, layToComp, RdAt] at h hsh ⊢
+    obtain ⟨n, rest, k, hp, hit, hnm, _, _, hb, he, _⟩ := h
+    obtain ⟨n', hp'⟩ := hsh
+    rw [hp] at hp'
+    simp only [Option.some.injEq, Prod.mk.injEq] at hp'
+    obtain ⟨rfl, rfl⟩ := hp'
+    simp only [List.length_nil, Nat.add_zero] at he
+    obtain ⟨w, hrn, hsim⟩ := rdName_item (e := p + len) hw hit hnm (parse_wf hp) (by omega)
+    refine ⟨w, ?_, n, w, by have := parse_content hp; simpa using this, rfl, hsim⟩
+    rw [hrn]
+    simp only [if_pos he.symm]
+  · simp only [h1, if_false] at h hsh ⊢
+    by_cases h6 : ty = 6
+    · subst h6
+      simp only [true_or, if_true, List.map_cons, List.map_nil, layToComp, RdAt] at h hsh ⊢
+      obtain ⟨a, r1, k1, hp1, hit1, hnm1, _, _, b, r2, k2, hp2, hit2, hnm2, _, _, hb, he, _⟩ := h
+      obtain ⟨a', r1', b', tl, hq1, hq2, htl⟩ := hsh
+      rw [hp1] at hq1
+      simp only [Option.some.injEq, Prod.mk.injEq] at hq1
+      obtain ⟨rfl, rfl⟩ := hq1
+      rw [hp2] at hq2
+      simp only [Option.some.injEq, Prod.mk.injEq] at hq2
+      obtain ⟨rfl, rfl⟩ := hq2
+      obtain ⟨wa, hra, hsa⟩ := rdName_item (e := p + len) hw hit1 hnm1 (parse_wf hp1) (by omega)
+      obtain ⟨wb, hrb, hsb⟩ := rdName_item (e := p + len) hw hit2 hnm2 (parse_wf hp2) (by omega)
+      have hex : ((s.octets.extract 0 s.cursor).extract (p + k1 + k2) (p + len)).toList = r2 := by
+        have := bytesAt_extract (bytesAt_extract_prefix hcs hb (by omega))
+        rw [← he] at this; exact this
+      refine ⟨wa ++ wb ++ r2, ?_, a, b, r2, wa, wb, ?_, rfl, hsa, hsb, htl⟩
+      · rw [hra]
+        simp only []
+        rw [hrb]
+        simp only []
+        rw [if_pos (by omega), hex]
+      · have c1 := parse_content hp1
+        have c2 := parse_content hp2
+        rw [c1, c2, List.append_assoc]
+    · by_cases h14 : ty = 14
+      · subst h14
+        simp only [Nat.reduceEqDiff, or_true, if_true, if_false, List.map_cons, List.map_nil, layToComp, RdAt] at h hsh ⊢
+        obtain ⟨a, r1, k1, hp1, hit1, hnm1, _, _, b, r2, k2, hp2, hit2, hnm2, _, _, hb, he, _⟩ := h
+        obtain ⟨a', r1', b', hq1, hq2⟩ := hsh
+        rw [hp1] at hq1
+        simp only [Option.some.injEq, Prod.mk.injEq] at hq1
+        obtain ⟨rfl, rfl⟩ := hq1
+        rw [hp2] at hq2
+        simp only [Option.some.injEq, Prod.mk.injEq] at hq2
+        obtain ⟨rfl, rfl⟩ := hq2
+        simp only [List.length_nil, Nat.add_zero] at he
+        obtain ⟨wa, hra, hsa⟩ := rdName_item (e := p + len) hw hit1 hnm1 (parse_wf hp1) (by omega)
+        obtain ⟨wb, hrb, hsb⟩ := rdName_item (e := p + len) hw hit2 hnm2 (parse_wf hp2) (by omega)
+        refine ⟨wa ++ wb, ?_, a, b, wa, wb, ?_, rfl, hsa, hsb⟩
+        · rw [hra]
+          simp only []
+          rw [hrb]
+          simp only []
+          rw [if_pos he.symm]
+        · have c1 := parse_content hp1
+          have c2 := parse_content hp2
+          rw [c1, c2]; simp
+      · by_cases h15 : ty = 15
+        · subst h15
+          simp only [Nat.reduceEqDiff, or_self, if_true, if_false, List.map_cons, List.map_nil, layToComp, RdAt] at h hsh ⊢
+          obtain ⟨h2, hb2, a, r1, k1, hp1, hit1, hnm1, _, _, hb, he, _⟩ := h
+          obtain ⟨_, a', hq1⟩ := hsh
+          rw [hp1] at hq1
+          simp only [Option.some.injEq, Prod.mk.injEq] at hq1
+          obtain ⟨rfl, rfl⟩ := hq1
+          simp only [List.length_nil, Nat.add_zero] at he
+          obtain ⟨wa, hra, hsa⟩ := rdName_item (e := p + len) hw hit1 hnm1 (parse_wf hp1) (by omega)
+          have htl : (rd.take 2).length = 2 := by rw [List.length_take]; omega
+          have hex : ((s.octets.extract 0 s.cursor).extract p (p + 2)).toList = rd.take 2 := by
+            have := bytesAt_extract (bytesAt_extract_prefix hcs hb2 (by rw [htl]; omega))
+            rw [htl] at this; exact this
+          refine ⟨rd.take 2 ++ wa, ?_, rd.take 2, a, wa, htl, ?_, rfl, hsa⟩
+          · rw [if_neg (by omega), hra]
+            simp only []
+            rw [if_pos he.symm, hex]
+          · have c1 := parse_content hp1
+            rw [List.append_nil] at c1
+            rw [← c1, List.take_append_drop]
+        · have hn : CompType.compressibleName ∉ List.map layToComp
+              (if ty = 6 ∨ ty = 14 then [Message.Lay.cname, Message.Lay.cname]
+               else if ty = 15 then [Message.Lay.fixed 2, Message.Lay.cname]
+               else if ty = 33 ∧ cls = 1 then [Message.Lay.fixed 6, Message.Lay.uname]
+               else if ty = 1 ∧ cls = 3 then [Message.Lay.uname] else []) := by
+            rw [if_neg (by omega), if_neg h15]
+            split
+            · simp [layToComp]
+            · split <;> simp [layToComp]
+          obtain ⟨hbb, hee⟩ := rdAt_literal h hn
+          have hrl : len = rd.length := by omega
+          refine ⟨rd, ?_, ?_⟩
+          · simp only [h6, h14, h15, if_false]
+            rw [hrl]
+            congr 1
+            exact bytesAt_extract (bytesAt_extract_prefix hcs hbb (by omega))
+          · simp only [h6, h14, h15, if_false]
+
+/-- the decoder's expanded RDATA is the RDATA given with its compressible names written out (for
+    16-bit types and RDATA that is well formed for its type) -/
+def RdMatch (it : RItC) (dr : DRr) : Prop :=
+  it.r.ty < 65536 → RdShape it.r.ty it.r.rdata →
+    RdExpands (it.m ≠ .standard) it.r.ty it.r.rdata dr.rdata ∧ dr.rdOk = true
+
+/-- `RMatch` and `RdMatch` together -/
+def RMatchX (it : RItC) (dr : DRr) : Prop := RMatch it dr ∧ RdMatch it dr
+
+theorem All2.imp {α β : Type} {R S : α → β → Prop} (hRS : ∀ a b, R a b → S a b) {as : List α} {bs : List β}
+    (h : All2 R as bs) : All2 S as bs := by
+  induction h with
+  | nil => exact .nil
+  | cons hh _ ih => exact .cons (hRS _ _ hh) ih
+
+theorem decodeRrs_chainCX (s : State) (hw : WInv s) :
     ∀ (rs : List RItC) (p e : Nat), RChainC s rs p e → e ≤ s.cursor → ∀ n, n ≤ rs.length →
       ∃ l p', decodeRrs (s.octets.extract 0 s.cursor) n p = some (l, p') ∧
-        All2 RMatch (rs.take n) l ∧ RChainC s (rs.drop n) p' e := by
+        All2 RMatchX (rs.take n) l ∧ RChainC s (rs.drop n) p' e := by
   have hcs : s.cursor ≤ s.octets.size := Nat.le_trans hw.cur_av hw.av_size
   have hsz := extract_size s.octets s.cursor hcs
   intro rs
@@ -172,6 +361,12 @@ theorem decodeRrs_chainC (s : State) (hw : WInv s) :
         rw [hrl]
         congr 1
         exact bytesAt_extract (bytesAt_extract_prefix hcs hbb (by omega))
+      have hexp : x.r.ty < 65536 → RdShape x.r.ty x.r.rdata →
+          ∃ rd', expandRdata (s.octets.extract 0 s.cursor) (x.r.ty % 65536) (x.a + x.k + 10) x.rdlen = some rd' ∧
+            RdExpands (x.m ≠ .standard) x.r.ty x.r.rdata rd' := by
+        intro hty hsh
+        rw [Nat.mod_eq_of_lt hty]
+        exact expandRdata_rdAt s hw x.m x.r.cls x.r.ty ts x.r.rdata _ _ x.ps hct hrd (by omega) hsh
       obtain ⟨l, p', hl, hfa, hch⟩ := ih _ _ h4 he n (by simpa using hn)
       have hl2 : ∀ y, (u16be y).length = 2 := fun _ => rfl
       obtain ⟨b12, b3⟩ := bytesAt_append hby
@@ -189,10 +384,15 @@ theorem decodeRrs_chainC (s : State) (hw : WInv s) :
       cases hex2 : expandRdata (s.octets.extract 0 s.cursor) (x.r.ty % 65536) (x.a + x.k + 10) x.rdlen with
       | some rd =>
         refine ⟨⟨w, x.r.ty % 65536, x.r.cls % 65536, x.r.ttl % 4294967296, rd, x.a, true⟩ :: l, p', ?_,
-          .cons ⟨hcase, hex, rfl, rfl, rfl, rfl, fun hty ts' hct' hn => by
+          .cons ⟨⟨hcase, hex, rfl, rfl, rfl, rfl, fun hty ts' hct' hn => by
             rw [hlit hty ts' hct' hn] at hex2
             simp only [Option.some.injEq] at hex2
-            exact ⟨hex2.symm, rfl⟩⟩ (by simpa using hfa), by simpa using hch⟩
+            exact ⟨hex2.symm, rfl⟩⟩, fun hty hsh => by
+            obtain ⟨rd', h1, h2⟩ := hexp hty hsh
+            rw [hex2] at h1
+            simp only [Option.some.injEq] at h1
+            subst h1
+            exact ⟨h2, rfl⟩⟩ (by simpa using hfa), by simpa using hch⟩
         simp only [decodeRrs, hd]
         rw [specField16_some (by rw [hsz]; omega), specField16_some (by rw [hsz]; omega), e3,
           specField16_some (by rw [hsz]; omega)]
@@ -202,8 +402,10 @@ theorem decodeRrs_chainC (s : State) (hw : WInv s) :
       | none =>
         refine ⟨⟨w, x.r.ty % 65536, x.r.cls % 65536, x.r.ttl % 4294967296,
           ((s.octets.extract 0 s.cursor).extract (x.a + x.k + 10) (x.a + x.k + 10 + x.rdlen)).toList, x.a, false⟩ :: l,
-          p', ?_, .cons ⟨hcase, hex, rfl, rfl, rfl, rfl, fun hty ts' hct' hn => by
-            rw [hlit hty ts' hct' hn] at hex2; cases hex2⟩ (by simpa using hfa), by simpa using hch⟩
+          p', ?_, .cons ⟨⟨hcase, hex, rfl, rfl, rfl, rfl, fun hty ts' hct' hn => by
+            rw [hlit hty ts' hct' hn] at hex2; cases hex2⟩, fun hty hsh => by
+            obtain ⟨rd', h1, _⟩ := hexp hty hsh
+            rw [hex2] at h1; cases h1⟩ (by simpa using hfa), by simpa using hch⟩
         simp only [decodeRrs, hd]
         rw [specField16_some (by rw [hsz]; omega), specField16_some (by rw [hsz]; omega), e3,
           specField16_some (by rw [hsz]; omega)]
@@ -211,6 +413,14 @@ theorem decodeRrs_chainC (s : State) (hw : WInv s) :
         rw [if_pos (by rw [hsz]; omega), hl]
         simp only [hex2]
 
+
+theorem decodeRrs_chainC (s : State) (hw : WInv s) :
+    ∀ (rs : List RItC) (p e : Nat), RChainC s rs p e → e ≤ s.cursor → ∀ n, n ≤ rs.length →
+      ∃ l p', decodeRrs (s.octets.extract 0 s.cursor) n p = some (l, p') ∧
+        All2 RMatch (rs.take n) l ∧ RChainC s (rs.drop n) p' e := by
+  intro rs p e h he n hn
+  obtain ⟨l, p', h1, h2, h3⟩ := decodeRrs_chainCX s hw rs p e h he n hn
+  exact ⟨l, p', h1, h2.imp (fun _ _ hx => hx.1), h3⟩
 
 /-! ### what `finish` appends, with content -/
 
@@ -445,19 +655,19 @@ theorem map_take_eq {α β : Type} (f : α → β) (l : List α) (a b : List β)
   · rw [List.map_take, h, List.take_left']; rfl
   · rw [List.map_drop, h, List.drop_left']; rfl
 
-/-- **C12 (d) in every compression mode, content.** From a valid writer state whose layout holds the
-    questions and records `b`: whatever `finish` returns (if at most 65535 octets) decodes completely
-    under the independent message decoder, and — section by section, in order — every decoded
-    question and record is the one given: name equal up to ASCII case (octet for octet when it was
-    written in `CasePreserving` or `Disabled` mode), TYPE, CLASS, TTL as given (as 16/16/32-bit
-    values); the additional section ends with the OPT and TSIG records `finish` appends. -/
-theorem finish_decodes_content (macFn : Tsig → List UInt8 → List UInt8) (s : State) (b : Body) (mb : MBody)
+/-- **C12 (d) in every compression mode, content and expanded RDATA.** As `finish_decodes_content`
+    below, and in addition (`RdMatch`): for every record of a 16-bit type whose given RDATA is well
+    formed for its type (`RdShape`), the RDATA the decoder reports — with the names of the RFC 1035
+    types NS, MD, MF, CNAME, SOA, MB, MG, MR, PTR, MINFO, MX expanded — is the RDATA given with those
+    names written out: equal up to ASCII case, octet for octet when the record was written outside
+    `Standard` mode (`RdExpands`, `rdExpands_lower`), and `rdOk = true`. -/
+theorem finish_decodes_rdata (macFn : Tsig → List UInt8 → List UInt8) (s : State) (b : Body) (mb : MBody)
     (hI : I s) (hL : CLay P s b mb) (m : Bytes) (mac : Option (List UInt8)) (hf : finish s macFn = .ok (m, mac))
     (hsz : m.size ≤ 65535) :
     ∃ (d : DMsg) (qs : List QItC) (ian ins iar : List RItC), specDecodeMsg m = some d ∧
       qs.map (·.q) = b.qs ∧ ian.map (·.r) = b.an ∧ ins.map (·.r) = b.ns ∧
       iar.map (·.r) = b.ar ++ optRecs' s.edns ++ tsigRecs s.tsig mac ∧
-      All2 QMatch qs d.questions ∧ All2 RMatch ian d.an ∧ All2 RMatch ins d.ns ∧ All2 RMatch iar d.ar ∧
+      All2 QMatch qs d.questions ∧ All2 RMatchX ian d.an ∧ All2 RMatchX ins d.ns ∧ All2 RMatchX iar d.ar ∧
       (∀ it ∈ qs, P it.m) ∧ ∀ it ∈ ian ++ ins ++ iar, P it.m := by
   unfold finish at hf
   cases hw : finishWithMac macFn s with
@@ -517,10 +727,10 @@ theorem finish_decodes_content (macFn : Tsig → List UInt8 → List UInt8) (s :
       have hanl : b.an.length = s.ancount := hL.an.symm
       have hnsl : b.ns.length = s.nscount := hL.ns.symm
       -- the three record sections
-      obtain ⟨la, p2, hda, hma, hch2⟩ := decodeRrs_chainC sF wF _ _ _ hr (Nat.le_refl _) s.ancount (by omega)
-      obtain ⟨ln, p3, hdn, hmn, hch3⟩ := decodeRrs_chainC sF wF _ _ _ hch2 (Nat.le_refl _) s.nscount
+      obtain ⟨la, p2, hda, hma, hch2⟩ := decodeRrs_chainCX sF wF _ _ _ hr (Nat.le_refl _) s.ancount (by omega)
+      obtain ⟨ln, p3, hdn, hmn, hch3⟩ := decodeRrs_chainCX sF wF _ _ _ hch2 (Nat.le_refl _) s.nscount
         (by rw [List.length_drop]; omega)
-      obtain ⟨lr, p4, hdr, hmr, hch4⟩ := decodeRrs_chainC sF wF _ _ _ hch3 (Nat.le_refl _) s.arcount
+      obtain ⟨lr, p4, hdr, hmr, hch4⟩ := decodeRrs_chainCX sF wF _ _ _ hch3 (Nat.le_refl _) s.arcount
         (by rw [List.length_drop, List.length_drop]; omega)
       have hnil : (((rs.drop s.ancount).drop s.nscount).drop s.arcount) = [] := by
         apply List.eq_nil_of_length_eq_zero
@@ -558,5 +768,24 @@ theorem finish_decodes_content (macFn : Tsig → List UInt8 → List UInt8) (s :
         have : rs.drop (b.an ++ b.ns).length = (rs.drop s.ancount).drop s.nscount := by
           rw [List.drop_drop, List.length_append, hanl, hnsl]
         rw [← this]; exact ha2
+
+/-- **C12 (d) in every compression mode, content.** From a valid writer state whose layout holds the
+    questions and records `b`: whatever `finish` returns (if at most 65535 octets) decodes completely
+    under the independent message decoder, and — section by section, in order — every decoded
+    question and record is the one given: name equal up to ASCII case (octet for octet when it was
+    written in `CasePreserving` or `Disabled` mode), TYPE, CLASS, TTL as given (as 16/16/32-bit
+    values); the additional section ends with the OPT and TSIG records `finish` appends. -/
+theorem finish_decodes_content (macFn : Tsig → List UInt8 → List UInt8) (s : State) (b : Body) (mb : MBody)
+    (hI : I s) (hL : CLay P s b mb) (m : Bytes) (mac : Option (List UInt8)) (hf : finish s macFn = .ok (m, mac))
+    (hsz : m.size ≤ 65535) :
+    ∃ (d : DMsg) (qs : List QItC) (ian ins iar : List RItC), specDecodeMsg m = some d ∧
+      qs.map (·.q) = b.qs ∧ ian.map (·.r) = b.an ∧ ins.map (·.r) = b.ns ∧
+      iar.map (·.r) = b.ar ++ optRecs' s.edns ++ tsigRecs s.tsig mac ∧
+      All2 QMatch qs d.questions ∧ All2 RMatch ian d.an ∧ All2 RMatch ins d.ns ∧ All2 RMatch iar d.ar ∧
+      (∀ it ∈ qs, P it.m) ∧ ∀ it ∈ ian ++ ins ++ iar, P it.m := by
+  obtain ⟨d, qs, ian, ins, iar, h1, h2, h3, h4, h5, h6, h7, h8, h9, h10, h11⟩ :=
+    finish_decodes_rdata macFn s b mb hI hL m mac hf hsz
+  exact ⟨d, qs, ian, ins, iar, h1, h2, h3, h4, h5, h6, h7.imp (fun _ _ hx => hx.1), h8.imp (fun _ _ hx => hx.1),
+    h9.imp (fun _ _ hx => hx.1), h10, h11⟩
 
 end QV.Writer
